@@ -95,6 +95,21 @@ def lstsqForward (n : Nat) (sol : Option (Nat → α)) : Except String (Tab α) 
   | none => .error "assert:lstsq-nan"
   | some x => .ok (tab n x)
 
+/-- The effective-rank threshold of `torch.linalg.lstsq(A, b, rcond, driver)` for the SVD drivers `gelsd` / `gelss`:
+`rcond = None` means `max(m, n)·eps` (torch), a negative `rcond` means the driver's machine precision `mach` (LAPACK:
+`eps/2` in gelsd, `eps` in gelss — a parameter here), and singular values `≤ rcond·σ₁` are treated as zero. -/
+def lstsqCutoff (rcond : Option α) (m n : Nat) (eps mach sigma1 : α) : α :=
+  let r : α := match rcond with
+    | none => k (max m n) * eps
+    | some r => if Scalar.lt r (k 0) then mach else r
+  r * sigma1
+
+/-- `LSTSQ.forward` with an SVD driver unfolded one level: the kernel's solution is `V Σ⁺ Uᵀ b` with the reciprocals of
+the singular values above `lstsqCutoff`; then the NaN assertion (never taken: the model's scalars have no NaN). -/
+def lstsqForwardSvd (m n r : Nat) (U V : Nat → Nat → α) (sigma : Nat → α) (rcond : Option α) (eps mach : α)
+    (b : Nat → α) : Except String (Tab α) :=
+  lstsqForward n (some (pinvForward m n (pinvOfSvd r U V sigma (lstsqCutoff rcond m n eps mach (sigma 0))) b).get)
+
 /-- `LSTSQ.forward` on a batch: ONE assertion `not torch.any(torch.isnan(solution))` for the whole batch. -/
 def lstsqForwardBatch (n : Nat) (sols : List (Option (Nat → α))) : Except String (List (Tab α)) :=
   if sols.any (fun s => s.isNone) then .error "assert:lstsq-nan"
